@@ -270,7 +270,13 @@ func (e *c19Env) fieldValues(seed int64, f protoreflect.FieldDescriptor) []proto
 	case protoreflect.BoolKind:
 		return []protoreflect.Value{protoreflect.ValueOfBool(true), protoreflect.ValueOfBool(false)}
 	case protoreflect.EnumKind:
-		return []protoreflect.Value{protoreflect.ValueOfEnum(999), protoreflect.ValueOfEnum(0), protoreflect.ValueOfEnum(1)}
+		// one undefined number and every defined value of the enum (the last one is the default "valid" choice)
+		out := []protoreflect.Value{protoreflect.ValueOfEnum(999)}
+		vs := f.Enum().Values()
+		for i := 0; i < vs.Len(); i++ {
+			out = append(out, protoreflect.ValueOfEnum(vs.Get(i).Number()))
+		}
+		return out
 	case protoreflect.Int32Kind, protoreflect.Int64Kind, protoreflect.Sint32Kind, protoreflect.Sint64Kind:
 		if f.Kind() == protoreflect.Int32Kind || f.Kind() == protoreflect.Sint32Kind {
 			return []protoreflect.Value{protoreflect.ValueOfInt32(-1), protoreflect.ValueOfInt32(1 << 30), protoreflect.ValueOfInt32(0)}
